@@ -3,6 +3,7 @@ import DaskModel.Model.GraphAlg
 import DaskModel.Model.Order
 import DaskModel.Model.TaskTermIO
 import DaskModel.Model.LegacyOpt
+import DaskModel.Model.Rename
 open Dask
 
 namespace GraphDrv
@@ -111,6 +112,48 @@ def hCull : Handler := handler fun
     | none => pure (.list [.sym "raised"])
   | _ => none
 
+/-- a finite renaming given as an association list; identity elsewhere -/
+def rhoOf (kvs : List (Obj × Obj)) : Obj → Obj := fun k => (kvs.lookup k).getD k
+
+/-- `(clone_legacy keys rho bindto|none bindfn graph)` ↦ the cloned legacy layer -/
+def hCloneLegacy : Handler := handler fun
+  | [keys, rho, bindTo, bindFn, g] => do
+    let keys ← objs? keys
+    let ρ := rhoOf (← lgraph? rho)
+    let b ← match bindTo with
+      | .sym "nobind" => some none
+      | e => (Obj.ofSExp? e).map some
+    let bf ← Obj.ofSExp? bindFn
+    pure (ofLGraph ((← lgraph? g).map fun kv => cloneLegacyEntry keys ρ b bf kv.1 kv.2))
+  | _ => none
+
+/-- `(clone_spec keys rho bindto|nobind graph)` ↦ the cloned task-spec layer (`substitute` + bind of the leaves) -/
+def hCloneSpec : Handler := handler fun
+  | [keys, rho, bindTo, g] => do
+    let keys ← objs? keys
+    let ρ := rhoOf (← lgraph? rho)
+    let b ← match bindTo with
+      | .sym "nobind" => some none
+      | e => (Obj.ofSExp? e).map some
+    pure (ofNGraph ((← ngraph? g).map fun kn =>
+      if keys.contains kn.1 then
+        let leaf := !(kn.2.deps.any fun d => keys.contains d)
+        let n := renameNode (fun k => if keys.contains k then ρ k else k) kn.2
+        match b with
+        | some bl => if leaf then (ρ kn.1, bindNode bl n) else (ρ kn.1, n)
+        | none => (ρ kn.1, n)
+      else kn))
+  | _ => none
+
+/-- `(checkpoint_reduce name split_every (mapkeys...))` ↦ `((key (inputs...)) ...)` -/
+def hCheckpointReduce : Handler := handler fun
+  | [name, se, mk] => do
+    let name ← Obj.ofSExp? name
+    let mapKeys ← objs? mk
+    let r := checkpointReduce name (fun i => .tuple [name, .int i]) (← se.toNat?) (mapKeys.length + 1) mapKeys []
+    pure (.list (r.map fun (k, ins) => .list [k.toSExp, .list (ins.map Obj.toSExp)]))
+  | _ => none
+
 def hExecGraph : Handler := handler fun
   | [g, cache] => do
     match executeGraph (← ngraph? g) (envOf (← lgraph? cache)) with
@@ -126,6 +169,8 @@ def table : List (String × Handler) :=
    ("convert", TermDrv.hConvert), ("convert_graph", TermDrv.hConvertGraph), ("core_get", TermDrv.hCoreGet),
    ("legacy_get", TermDrv.hLegacyGet), ("eval_node", TermDrv.hEvalNode), ("deps", TermDrv.hDeps),
    ("exec_graph", TermDrv.hExecGraph), ("legacy_refs", TermDrv.hLegacyRefs),
-   ("subs", TermDrv.hSubs), ("cull", TermDrv.hCull)]
+   ("subs", TermDrv.hSubs), ("cull", TermDrv.hCull),
+   ("clone_legacy", TermDrv.hCloneLegacy), ("clone_spec", TermDrv.hCloneSpec),
+   ("checkpoint_reduce", TermDrv.hCheckpointReduce)]
 
 def main : IO Unit := runDriver table
